@@ -44,3 +44,57 @@ Example C10_example :
   check_tree t = true /\ flatten t = [1; 2; 3; 5; 7; 9; 10] /\ route 5 t = true /\ route 6 t = false
   /\ fst (tstep (fst (tstep (fst (tstep [] (TIns 4 1 1))) (TIns 2 2 2))) (TRem 4)) = [(2, (2, 2))].
 Proof. repeat split; reflexivity. Qed.
+
+(** The slotted page under every tree node (storage/core/buffer.rs; Model/Slotted.v, run against
+    the code on every check).  For every capacity and every sequence of insert, remove, replace,
+    defragment and drain(..) - with whatever indices and cell sizes, valid or not - the page
+    behaves as a plain list of cells: an accepted insert puts the cell at its index, remove and
+    replace hand back exactly the cell that was there, drain hands out the list, a refused
+    operation and a defragmentation change nothing, the page never reads bytes it did not write
+    ([bad] stays false: no cell overlaps another, the slot array or the end of the page, and no
+    unsigned counter underflows), and a replace that had to remove the old cell first never fails
+    half-way.  Cell sizes are multiples of CELL_ALIGNMENT, as every OwnedCell constructor makes
+    them; the cell header size [chdr] and page header size [phdr] are arbitrary (the run uses the
+    values the compiler reports). *)
+From Axv Require Import Model.Slotted Proofs.SlottedProofs.
+Definition C10_page_refines_list_statement : Prop :=
+  forall chdr phdr capacity ops,
+    0 < chdr -> chdr mod 8 = 0 -> capacity mod 8 = 0 -> Forall op_al ops ->
+    agree chdr phdr (Slotted.init capacity) [] ops.
+Theorem C10_page_refines_list : C10_page_refines_list_statement.
+Proof.
+  intros chdr phdr capacity ops H0 H1 H2 H3.
+  exact (page_refines_list chdr phdr H0 H1 ops (Slotted.init capacity) (init_inv chdr H0 H1 capacity H2) H3).
+Qed.
+Check C10_page_refines_list : C10_page_refines_list_statement.
+Print Assumptions C10_page_refines_list.
+
+(** ... and an insert is refused for lack of space only when the cell really does not fit what
+    the cells already there leave free (fragmentation never causes a refusal: the page is
+    defragmented first). *)
+Definition C10_page_insert_complete_statement : Prop :=
+  forall chdr phdr capacity ops i c,
+    0 < chdr -> chdr mod 8 = 0 -> capacity mod 8 = 0 -> Forall op_al ops -> plen c mod 8 = 0 ->
+    let p := fst (Slotted.run chdr phdr (Slotted.init capacity) ops) in
+    snd (insert chdr phdr p i c) = RErr EStorageFull ->
+    capacity < 2 * (N.of_nat (length (cells p)) + 1) + sumtot chdr (cells p) + total chdr c.
+Theorem C10_page_insert_complete : C10_page_insert_complete_statement.
+Proof.
+  intros chdr phdr capacity ops i c H0 H1 H2 H3 Hc p Hfull.
+  destruct (run_inv chdr phdr H0 H1 ops (Slotted.init capacity) (init_inv chdr H0 H1 capacity H2) H3) as [HI Hcap].
+  fold p in HI, Hcap. destruct (insert chdr phdr p i c) as [p' r] eqn:E. cbn [snd] in Hfull. subst r.
+  pose proof (insert_full_exact chdr phdr H0 H1 p i c p' HI Hc E) as Hlt.
+  unfold nslots in Hlt. rewrite <- (cells_length p) in Hlt. cbn [Slotted.init cap] in Hcap. rewrite <- Hcap. exact Hlt.
+Qed.
+Check C10_page_insert_complete : C10_page_insert_complete_statement.
+Print Assumptions C10_page_insert_complete.
+
+(** Non-vacuity: a page of capacity 160 with 32-byte cell headers: three inserts, a shrinking replace,
+    a remove that leaves a hole, an insert that only fits after defragmentation, a refused insert. *)
+Example C10_page_example :
+  let ops := [OInsert 0 (mkCell 1 8); OInsert 0 (mkCell 2 8); OInsert 2 (mkCell 3 16); OReplace 2 (mkCell 4 8);
+              ORemove 1; OInsert 1 (mkCell 5 24); OInsert 0 (mkCell 6 8)] in
+  Forall op_al ops /\
+  snd (Slotted.run 32 80 (Slotted.init 160) ops) = [ROk 0%nat; ROk 0%nat; ROk 2%nat; RCell (mkCell 3 16); RCell (mkCell 1 8); ROk 1%nat; RErr EStorageFull] /\
+  cells (fst (Slotted.run 32 80 (Slotted.init 160) ops)) = [mkCell 2 8; mkCell 5 24; mkCell 4 8].
+Proof. split; [repeat constructor|split; reflexivity]. Qed.
